@@ -88,7 +88,8 @@ func NewRangeEncoder(bs kanzi.OutputBitStream, args ...uint) (*RangeEncoder, err
 	this.alphabet = [256]int{}
 	this.freqs = [256]int{}
 	this.cumFreqs = [257]uint64{}
-	this.logRange = logRange
+	// The header stores logRange-8 in 3 bits
+	this.logRange = min(logRange, 15)
 	this.chunkSize = chkSize
 	return this, nil
 }
@@ -131,7 +132,8 @@ func NewRangeEncoderWithCtx(bs kanzi.OutputBitStream, ctx *map[string]any, args 
 	this.alphabet = [256]int{}
 	this.freqs = [256]int{}
 	this.cumFreqs = [257]uint64{}
-	this.logRange = logRange
+	// The header stores logRange-8 in 3 bits
+	this.logRange = min(logRange, 15)
 	this.chunkSize = chkSize
 	return this, nil
 }
